@@ -1468,3 +1468,73 @@ def iterate_composition(g):
     g.ob("variational.ExpectationPropagation.node_moments:fixed-nodes-report-their-time-with-zero-variance", ok,
          "mean := lower constraint, variance := 0 for fixed nodes; (alpha+1)/beta and mean/beta for free nodes",
          None if ok else "node_moments changed shape")
+
+
+# ---------------------------------------------------------------------------------------------
+def loop_assigned_locals(g, fname="variational.ExpectationPropagation.rescale",
+                         callers=("variational.ExpectationPropagation.infer",)):
+    """C35 (no internal errors): a local that is assigned only inside a `for _ in np.arange(n)` body and read after
+    the loop is unbound when n == 0 (UnboundLocalError).  The function gets the precondition `n > 0` for each such
+    loop, and every call site in `callers` must establish it on the path that reaches the call."""
+    from . import defassign
+    try:
+        fn = extract.get_function(fname)
+    except LookupError as e:
+        g.ob(f"{fname}:attach", False, "function exists", str(e), verdict="does-not-attach")
+        return
+    issues = defassign.analyse(fn.node)
+    params = [a.arg for a in fn.node.args.args + fn.node.args.kwonlyargs]
+    need = {}      # parameter -> variables whose binding depends on the loop over it
+    unexplained = []
+    for var, line in issues:
+        found = None
+        for loop in [n for n in ast.walk(fn.node) if isinstance(n, ast.For)]:
+            stores = {t.id for st in loop.body for t in ast.walk(st) if isinstance(t, ast.Name) and isinstance(t.ctx, ast.Store)}
+            if var in stores and isinstance(loop.iter, ast.Call) and ast.unparse(loop.iter.func) in ("np.arange", "range") \
+                    and len(loop.iter.args) == 1 and isinstance(loop.iter.args[0], ast.Name) and loop.iter.args[0].id in params \
+                    and line > loop.end_lineno:
+                found = loop.iter.args[0].id
+        if found:
+            need.setdefault(found, set()).add(var)
+        else:
+            unexplained.append((var, line))
+    g.ob(f"{fname}:locals-bound-before-use", not unexplained,
+         "every local read is assigned on every path to the read, given that the counted loops run at least once "
+         f"(preconditions: {', '.join(p + ' > 0' for p in sorted(need)) or 'none'})",
+         f"possibly unbound: {unexplained}" if unexplained else "",
+         verdict=None if not unexplained else "unknown")
+    short = fname.split(".")[-1]
+    for caller in callers:
+        paths = g.trace(caller)
+        if paths is None:
+            continue
+
+        def pred(p):
+            for ev in p.events:
+                if ev["kind"] == "call" and ev["func"] in (f"self.{short}", short):
+                    for par in sorted(need):
+                        arg = ev["kwargs"].get(par)
+                        if arg is None:
+                            idx = params.index(par) - (1 if params and params[0] == "self" else 0)
+                            arg = ev["args"][idx] if 0 <= idx < len(ev["args"]) else None
+                        if arg is None:
+                            return f"{par} is left to its default at the call of {short}"
+                        want = text_of(arg)
+                        ok = False
+                        for text, val in p.conds:
+                            try:
+                                t = ast.parse(text, mode="eval").body
+                            except SyntaxError:
+                                continue
+                            conj = t.values if isinstance(t, ast.BoolOp) and isinstance(t.op, ast.And) and val else [t] if val else []
+                            for c in conj:
+                                if isinstance(c, ast.Compare) and len(c.ops) == 1 and ast.unparse(c.left) == want and (
+                                        (isinstance(c.ops[0], ast.Gt) and ast.unparse(c.comparators[0]) == "0") or
+                                        (isinstance(c.ops[0], ast.GtE) and ast.unparse(c.comparators[0]) == "1")):
+                                    ok = True
+                        if not ok:
+                            return (f"{short}() is called without the path having established {want} > 0 "
+                                    f"({', '.join(sorted(need[par]))} would be unbound when it is 0)")
+            return None
+        g.forall_paths(f"{caller}:establishes-{short}-precondition", paths, pred,
+                       f"every call of {short}() is guarded by " + " and ".join(f"{p} > 0" for p in sorted(need)))
